@@ -414,6 +414,9 @@ class Impl:
     def to(self, m, cmp=False, via_cd=False):
         if cmp:
             ok, r = lib.call(lambda: self.T.from_micheline_value(m).to_python_object(lazy_diff=None, comparable=True))
+        elif via_cd == 'text':
+            from pytezos.michelson.format import micheline_to_michelson
+            ok, r = lib.call(lambda: self.cd(m).decode(micheline_to_michelson(m)))    # decode accepts Michelson source too
         elif via_cd:
             ok, r = lib.call(lambda: self.cd(m).decode(m))
         else:
@@ -580,7 +583,7 @@ def run(ctx: lib.Ctx) -> None:
             if not okn:
                 raise lib.InternalError(f'generated value refused by from_micheline_value: {ty_json(t)} {m} {norm!r}')
             via_cd = rng.random() < 0.3
-            ok, o = impl.to(m, via_cd=via_cd)
+            ok, o = impl.to(m, via_cd=('text' if via_cd and rng.random() < 0.25 else via_cd))
             try:
                 oc = py_coq(o) if ok else None
             except Unmodelled:
@@ -648,7 +651,7 @@ def run(ctx: lib.Ctx) -> None:
         ctx.corpus_cases += 1
     for t in FIXED_TYPES:
         add_type(t, 4, 'fixed')
-    ntypes = ctx.n(300, 4000)
+    ntypes = ctx.n(220, 4000)
     for i in range(ntypes):
         depth = rng.choice([1, 2, 2, 3, 3, 4])
         k = rng.random()
@@ -830,3 +833,23 @@ FIXED_TYPES = [
     ['map', None, None, S('unit'), S('nat')],
     ['option', None, None, S('unit')],
 ]
+
+
+def replay(ctx: lib.Ctx, doc: dict) -> int:
+    """./check C12 --replay file: re-run the stored input on the current /repo; 1 = the round trip still fails on it."""
+    if 'type_tuple' not in doc or 'value' not in doc:
+        print('replay: no (type, value) input in this file (layout / entrypoint / correspondence-only verdict)')
+        return 0
+    impl = Impl(doc['type_tuple'])
+    m = doc['value']
+    okn, norm = lib.call(lambda: impl.T.from_micheline_value(m).to_micheline_value(mode='readable', lazy_diff=None))
+    ok, o = impl.to(m)
+    print(f'replay: to_python_object -> {o!r}')
+    if not okn or not ok:
+        print('replay: FAILS (conversion raises)')
+        return 1
+    okb, back = impl.frm(o)
+    print(f'replay: from_python_object -> {back!r}')
+    bad = (not okb) or canon(back) != canon(norm)
+    print('replay: ' + ('FAILS: round trip differs' if bad else 'property holds on this input now'))
+    return 1 if bad else 0
